@@ -597,15 +597,16 @@ def cases_modules(ctx):
                                     k += 1
                                     yield _sm_case(fn, batch, R, H, eos, inc, norm, bf, costs, excl, PADDINGS[k % 3], via="M")
     rng = random.Random("modules/%d" % ctx.seed)
-    for N, M, R, H in [(1, 2, 2, 3), (2, 3, 3, 2)]:
+    for N, M, R, H in [(1, 2, 2, 3), (2, 3, 3, 2), (2, 2, 3, 3)]:
         for ref3d in (False, True):
             for eos, inc in EOS_CFGS:
                 for sub_avg in (False, True):
                     for bf in (False, True):
                         for norm in (False, True):
-                            for costs in MER_COSTS[1:]:
+                            for costs in [("2", "2", "2"), ("1", "2", "3"), ("2", "1", "1"), ("1", "3", "1")]:
                                 for red in ("none", "sum", "mean"):
-                                    yield _mer_case(rng, N, M, R, H, ref3d, eos, inc, sub_avg, bf, norm, costs, red, via="M")
+                                    for _ in range(2):
+                                        yield _mer_case(rng, N, M, R, H, ref3d, eos, inc, sub_avg, bf, norm, costs, red, via="M")
 
 
 # ---------------------------------------------------------------------------------------------------
@@ -621,8 +622,22 @@ def _pairs_of(case):
 def nt_ties(case):
     """some pair (or prefix) has minimum-cost alignments with different edit counts: the tie-breaking matters"""
     if case["fn"] == "mer":
-        return case["R"] > 0 and case["H"] > 0
+        return nt_mer(case)
     return any(len(o) > 1 for r, h in _pairs_of(case) for o in allowed_counts(r, h, tuple(case["costs"])))
+
+
+def nt_mer(case):
+    """some batch element has samples with different (sets of) error rates: the weighting and the mean subtraction matter"""
+    R, H, eos, inc = case["R"], case["H"], case["eos"], case["include_eos"]
+    for n in range(case["N"]):
+        seen = set()
+        for m in range(case["M"]):
+            r = denoted([case["ref"][t][n][m] if case["ref3d"] else case["ref"][t][n] for t in range(R)], eos, inc)
+            h = denoted([case["hyp"][t][n][m] for t in range(H)], eos, inc)
+            seen.add((allowed_counts(r, h, tuple(case["costs"]))[len(h)], len(r) if case["norm"] else 1))
+        if len(seen) > 1:
+            return True
+    return False
 
 
 def nt_differs(case):
@@ -650,19 +665,7 @@ CHECKERS = {
 }
 
 FINDINGS = [
-    {"id": "KF-C02-1", "property": "C02", "clause": "C02.mis.empty_dim",
-     "what": "error_rate / prefix_error_rates raise RuntimeError (max over an empty dimension in _lens_from_eos) when eos is set and "
-             "ref or hyp has a time dimension of size 0 (same site as C01.lens.empty_dim)",
-     "class": "eos is not None and (R == 0 or H == 0)",
-     "witness": {"fn": "er", "via": "F", "R": 0, "H": 1, "N": 1, "ref": [], "hyp": [[1]], "eos": 0, "include_eos": False, "norm": True,
-                 "batch_first": False, "costs": ["1", "1", "1"]}},
-    {"id": "KF-C02-2", "property": "C02", "clause": "C02.mis.empty_dim",
-     "what": "prefix_error_rates(exclude_last=True) raises IndexError when hyp has a time dimension of size 0 (prefix_ers[0] of a (0, N) "
-             "tensor); the contract is an empty (0, N) result",
-     "class": "prefix form, exclude_last and H == 0",
-     "witness": {"fn": "per", "via": "F", "R": 1, "H": 0, "N": 1, "ref": [[1]], "hyp": [], "eos": None, "include_eos": False, "norm": True,
-                 "batch_first": False, "costs": ["1", "1", "1"], "exclude_last": True, "padding": None}},
-    {"id": "KF-C02-3", "property": "C02", "clause": "C02.mer.empty_dim",
+    {"id": "KF-C02-1", "property": "C02", "clause": "C02.mer.empty_dim",
      "what": "minimum_error_rate_loss raises RuntimeError (view(T, -1) of a 0-element tensor is ambiguous) when ref or hyp has a time "
              "dimension of size 0; the contract is the loss of all-empty references / hypotheses",
      "class": "R == 0 or H == 0",
@@ -672,10 +675,7 @@ FINDINGS = [
 ]
 
 KNOWN_MATCH = {
-    "KF-C02-1": lambda case, msg: case.get("fn") in ("er", "per") and case["eos"] is not None and (case["R"] == 0 or case["H"] == 0)
-    and "raised RuntimeError" in msg,
-    "KF-C02-2": lambda case, msg: case.get("fn") == "per" and bool(case.get("exclude_last")) and case["H"] == 0 and "raised IndexError" in msg,
-    "KF-C02-3": lambda case, msg: case.get("fn") == "mer" and (case["R"] == 0 or case["H"] == 0) and "raised RuntimeError" in msg
+    "KF-C02-1": lambda case, msg: case.get("fn") == "mer" and (case["R"] == 0 or case["H"] == 0) and "raised RuntimeError" in msg
     and "reshape" in msg,
 }
 
@@ -762,7 +762,7 @@ def run_bounded(ctx):
                           % ("2..3" if q else "2..4", L, "" if q else "; plus 4000 seeded random sample sets (N<=4, M<=5, R,H<=6)"),
                     text="loss = softmax(log_probs)[n,m] * (er[n,m] - [sub_avg] mean_m er[n,:]) reduced by none/sum/mean, for some allowed "
                          "error rates er (existential over the optimal-alignment counts; unique for uniform costs)",
-                    nontrivial=nt_ties, chunk=128, functions=mer_fns)
+                    nontrivial=nt_mer, chunk=128, functions=mer_fns)
     if _want(ctx, "C02.mer.empty_dim"):
         ctx.bounded("C02.mer.empty_dim", check_mer, cases_mer(ctx, 0, only_empty=True),
                     bound="as C02.mer.formula with R = 0 or H = 0 (zero-size time dimension), 2 cost triples",
@@ -777,7 +777,7 @@ def run_bounded(ctx):
     if _want(ctx, "C02.wrap.modules"):
         ctx.bounded("C02.wrap.modules", check_any, cases_modules(ctx),
                     bound="ErrorRate / PrefixErrorRates on a stride sample of the batches of shapes %s with every flag combination and 4 cost "
-                          "triples; MinimumErrorRateLoss on 2 shapes x every configuration x 3 cost triples"
+                          "triples; MinimumErrorRateLoss on 3 shapes x every configuration x 4 cost triples x 2 seeded draws"
                           % ("(2,3),(3,2),(3,3)" if q else "(2,3),(3,2),(3,3),(4,3),(3,4)"),
                     text="the module forms forward every constructor option to the same contract (same oracles)",
                     nontrivial=nt_ties, chunk=32,
